@@ -324,8 +324,9 @@ FwdNonVacuous == \A f \in DOMAIN FwdConfigs \ {"f0"} :
 
 FwdInit == /\ Init
            /\ \A f \in DOMAIN FwdConfigs : PrintT("FCFG " \o ToJson([cfg |-> f, keys |-> FwdConfigs[f]]))
-           /\ \A v \in FwdVecs : PrintT("VEC " \o ToJson(v))
+           /\ (Dev = {}) => \A v \in FwdVecs : PrintT("VEC " \o ToJson(v))
            /\ PrintT("FSUM " \o ToJson([vecs |-> Cardinality(FwdVecs), agree |-> FwdAgree, nonvacuous |-> FwdNonVacuous]))
 FwdNext == FALSE /\ UNCHANGED vars
-FwdOK == FwdAgree /\ FwdNonVacuous
+\* (mentions a variable so that TLC treats it as a state invariant of the one-state behaviour FwdInit)
+FwdOK == cfg \in CfgNames /\ FwdAgree /\ FwdNonVacuous
 =============================================================================
